@@ -736,7 +736,7 @@ func init() {
 			"the tolerance constants were calibrated once on the unchanged tree and frozen with a margin of at least 2^10 over the largest error observed (see counters max_rel_x2^70, max_abs_x2^120, max_err_over_tolerance_x2^20)",
 			"values above 2^600 (only PurchaseAmount far outside any reachable state) are compared in floating point; a unit is irrelevant at that size",
 		},
-		Quick: 280, Thorough: 14000, Batch: 20,
+		Quick: 280, Thorough: 2800, Batch: 20,
 		MinEval: 150000, MinDistinct: 1000,
 		Env:  []string{"GOMAXPROCS=2"},
 		Run:  c12Run,
